@@ -20,7 +20,7 @@ type TextTemplater struct {
 
 func (t *TextTemplater) Apply(parts *gun.RequestParts, vs map[string]any, scenarioName, stepName string) error {
 	const op = "scenario/TextTemplater.Apply"
-	tmpl, err := t.getTemplate(parts.URL, scenarioName, stepName, "url")
+	tmpl, err := t.getTemplate(parts.URL, scenarioName, stepName, "url", "")
 	if err != nil {
 		return fmt.Errorf("%s, template.New, %w", op, err)
 	}
@@ -34,7 +34,7 @@ func (t *TextTemplater) Apply(parts *gun.RequestParts, vs map[string]any, scenar
 	strBuilder.Reset()
 
 	for k, v := range parts.Headers {
-		tmpl, err = t.getTemplate(v, scenarioName, stepName, k)
+		tmpl, err = t.getTemplate(v, scenarioName, stepName, "header", k)
 		if err != nil {
 			return fmt.Errorf("%s, template.Execute Header %s, %w", op, k, err)
 		}
@@ -46,7 +46,7 @@ func (t *TextTemplater) Apply(parts *gun.RequestParts, vs map[string]any, scenar
 		strBuilder.Reset()
 	}
 	if parts.Body != nil {
-		tmpl, err = t.getTemplate(string(parts.Body), scenarioName, stepName, "body")
+		tmpl, err = t.getTemplate(string(parts.Body), scenarioName, stepName, "body", "")
 		if err != nil {
 			return fmt.Errorf("%s, template.Execute body, %w", op, err)
 		}
@@ -60,16 +60,16 @@ func (t *TextTemplater) Apply(parts *gun.RequestParts, vs map[string]any, scenar
 	return nil
 }
 
-func (t *TextTemplater) getTemplate(tmplBody, scenarioName, stepName, key string) (*template.Template, error) {
-	urlKey := fmt.Sprintf("%s_%s_%s", scenarioName, stepName, key)
-	tmpl, ok := t.templatesCache.Load(urlKey)
+func (t *TextTemplater) getTemplate(tmplBody, scenarioName, stepName, part, key string) (*template.Template, error) {
+	cacheKey := templateKey{scenario: scenarioName, step: stepName, part: part, key: key}
+	tmpl, ok := t.templatesCache.Load(cacheKey)
 	if !ok {
 		var err error
-		tmpl, err = template.New(urlKey).Funcs(templater.GetFuncs()).Parse(tmplBody)
+		tmpl, err = template.New(fmt.Sprintf("%s_%s_%s%s", scenarioName, stepName, part, key)).Funcs(templater.GetFuncs()).Parse(tmplBody)
 		if err != nil {
 			return nil, fmt.Errorf("scenario/TextTemplater.Apply, template.New, %w", err)
 		}
-		t.templatesCache.Store(urlKey, tmpl)
+		t.templatesCache.Store(cacheKey, tmpl)
 	}
 	return tmpl.(*template.Template), nil
 }
